@@ -33,6 +33,10 @@ R2_TEXT = "GTTG"
 FWD_ALPHABET = "ACac"
 
 
+# built natively at import time (Renamer compiles its template with exec(); CrossHair's dict proxy cannot be exec's globals)
+_RENAMER = Renamer("{id}_{rc} {comment}")
+
+
 def set_param(p):
     _PARAM.clear()
     _PARAM.update(p or {})
@@ -213,7 +217,7 @@ def check_single(c0: int, c1: int, c2: int, c3: int, s0: int, s1: int, s2: int, 
     info = ModificationInfo(read)
     out = rc(read, info)
     if naming == "rename":
-        out = Renamer("{id}_{rc} {comment}")(out, info)
+        out = _RENAMER(out, info)
         want_name = "r1_rc x" if better else "r1_ x"
     else:
         want_name = name + " rc" if better else name
@@ -251,7 +255,9 @@ def check_single(c0: int, c1: int, c2: int, c3: int, s0: int, s1: int, s2: int, 
 def _paired_progs(c, s):
     present = _PARAM.get("present", (True, True, True, True))
     kinds = _PARAM.get("kinds", ("after", "after", "after", "after"))
-    o = [(_outcome(kinds[i], c[i], s[i]) if present[i] else None) for i in range(4)]
+    which = _PARAM.get("cutters", "both")
+    used = (which != "only2", which != "only1", which != "only2", which != "only1")   # outcomes 0, 2: cutter 1; outcomes 1, 3: cutter 2
+    o = [(_outcome(kinds[i], c[i], s[i]) if present[i] and used[i] else None) for i in range(4)]
     # adapter of cutter 1: sees R1 (forward alphabet) in the given order and R2 when swapped; cutter 2 the other way
     return {"f": [o[0]], "r": [o[2]]}, {"r": [o[1]], "f": [o[3]]}
 
